@@ -6,3 +6,98 @@ LEVEL = "proof"
 
 def contracts():
     return [A.control_integral_apply, A.control_pi_apply, A.step_attempt_contract(False), A.step_attempt_contract(True), A.step_contract(False), A.step_contract(True), A.loop_contract(False), A.loop_contract(True), A.solve_contract(False), A.solve_contract(True)]
+
+
+def extra_checks(tier, seed):
+    """Bounded stand-in (NOT counted as proved): ``test_util.solve_adaptive_save_every_step`` drives the verified
+    ``RejectionLoop.loop`` from a native Python ``while`` over concrete values, which the jaxpr-based generator cannot
+    extract.  It is run natively with a concrete mock solver / error estimate (accept iff dt <= h_adm(t), h_adm
+    piecewise constant) and the *real* controllers over an enumerated family of profiles, and the C06 clauses are
+    checked on every run: time advances only through admissible steps, every saved state is an accepted step, the
+    reported step count equals the number of accepted attempts, nothing is saved beyond t1 when clipping."""
+    import itertools
+
+    import jax
+    import jax.numpy as jnp
+    import numpy as np
+    import probdiffeq.ivpsolve as ivpsolve
+    from probdiffeq._probdiffeq.solvers import ProbabilisticSolution
+    from probdiffeq._probdiffeq.utilities import InterpResult
+    from probdiffeq.util import test_util
+
+    def sol(t, ns, data):
+        return ProbabilisticSolution(t=t, u=data, solution_full=None, output_scale=None, num_steps=ns, auxiliary=None, fun_evals=None, prior=None)
+
+    class Solver:
+        is_suitable_for_save_at = True
+        is_suitable_for_save_every_step = True
+
+        def init(self, t, u, damp):
+            return sol(jnp.asarray(t, dtype=float), jnp.asarray(0.0), jnp.zeros((1,)))
+
+        def step(self, state, dt, damp):
+            return sol(state.t + dt, state.num_steps + 1.0, state.u + dt)  # payload accumulates the accepted step sizes
+
+        def interpolate_fwd(self, *, t, interp_from, interp_to):
+            mid = sol(t, interp_to.num_steps, interp_from.u + (t - interp_from.t))
+            return mid, InterpResult(step_from=interp_to, interp_from=mid)
+
+        def interpolate_fwd_at_t1(self, *, t, interp_from, interp_to):
+            return interp_to, InterpResult(step_from=interp_to, interp_from=interp_to)
+
+        def userfriendly_output(self, *, solution0, solution, solution1):
+            return solution
+
+    def make_error(h1, h2, switch):
+        class Error:
+            def init_error(self):
+                return jnp.zeros((1,))
+
+            def estimate_error_norm(self, state, previous, proposed, *, dt, atol, rtol, damp):
+                h = jnp.where(previous.t < switch, h1, h2)
+                return h / dt, state  # error_power >= 1  <=>  dt <= admissible step
+
+        return Error()
+
+    profiles = [(0.3, 0.05, 0.5), (0.05, 0.4, 0.3), (0.2, 0.2, 0.5)]
+    dt0s = [0.01, 0.15, 0.9]
+    if tier == "thorough":
+        profiles += [(0.02, 0.5, 0.7), (0.5, 0.02, 0.2), (0.11, 0.07, 0.45)]
+        dt0s += [0.3, 2.0]
+    controls = [("integral", lambda: ivpsolve.control_integral()), ("pi", lambda: ivpsolve.control_proportional_integral())]
+    viol, n, samples = [], 0, []
+    t0, t1 = 0.0, 1.0
+    for (h1, h2, sw), dt0, clip, (cname, mk) in itertools.product(profiles, dt0s, (False, True), controls):
+        n += 1
+        tag = f"h=({h1},{h2})@{sw},dt0={dt0},clip={clip},control={cname}"
+        try:
+            solve = test_util.solve_adaptive_save_every_step(solver=Solver(), error=make_error(h1, h2, sw), control=mk(), clip_dt=clip)
+            out = solve(jnp.zeros((1,)), t0=t0, t1=t1, atol=1e-3, rtol=1e-3, dt0=dt0, eps=1e-8)
+            ts = np.asarray(out.t)
+            ns = np.asarray(out.num_steps)
+            acc = np.asarray(out.u)[:, 0]
+            problems = []
+            prev = np.concatenate([[t0], ts[:-1]])
+            steps = ts - prev
+            if not np.all(steps > 0):
+                problems.append("saved times are not strictly increasing")
+            adm = np.where(prev < sw, h1, h2)
+            if not np.all(steps <= adm * (1 + 1e-12)):
+                problems.append(f"a saved step exceeds the admissible step: {steps.tolist()} vs {adm.tolist()}")
+            if not np.allclose(ns, np.arange(1, len(ts) + 1)):
+                problems.append(f"reported step counts {ns.tolist()} are not 1..N (a rejected attempt changed the state, or an accepted step was not saved)")
+            if not np.allclose(acc, ts - t0, atol=1e-12):
+                problems.append("the saved state did not advance by exactly the accepted steps")
+            if ts[-1] < t1 - 1e-8:
+                problems.append(f"stopped at {ts[-1]} before t1")
+            if len(ts) > 1 and ts[-2] >= t1:
+                problems.append("stepped on after reaching t1")
+            if clip and ts[-1] > t1 + 1e-12:
+                problems.append(f"clipping enabled but a step ended at {ts[-1]} > t1")
+            if problems:
+                viol.append({"contract": "extra:save_every_step(bounded)", "obligation": tag, "reason": "; ".join(problems), "native": {"violated": True, "times": ts.tolist()}})
+            if len(samples) < 3:
+                samples.append({"run": tag, "saved_times": [round(float(x), 6) for x in ts[:8]], "steps": len(ts)})
+        except Exception as e:  # a crash of the real function on a valid configuration is a violation, not a checker error
+            viol.append({"contract": "extra:save_every_step(bounded)", "obligation": tag, "reason": f"raised {type(e).__name__}: {str(e)[:200]}", "native": {"violated": True}})
+    return [{"bounded": True, "obligations": 0, "discharged": 0, "violations": viol, "functions": {"extra:test_util.solve_adaptive_save_every_step(bounded native runs, not proof)": {"instances": n, "obligations": 0, "discharged": 0}}, "samples": samples}]
